@@ -38,6 +38,9 @@ func conflictAncestors(p string) []string {
 	var out []string
 	parts := strings.Split(p, "/")
 	for i := 1; i < len(parts); i++ {
+		if parts[i-1] == "" {
+			continue // `usr/lib//x`: the ancestors of an unclean spelling are the clean ones
+		}
 		out = append(out, strings.Join(parts[:i], "/"))
 	}
 	return out
@@ -183,11 +186,65 @@ func (conflictSuite) Gen(r *Rng, i int, tier string) any {
 	c := conflictCase{}
 	kind := r.Intn(100)
 	switch {
-	case kind < 40:
+	case kind < 34:
 		// the rule table: regular files only, complete parents, no top-level entries
 		c.Kind = "table"
 		for k := 0; k < n; k++ {
 			c.Pkgs = append(c.Pkgs, g.pkg(k, n, 0, 0, 0, 0))
+		}
+	case kind < 44:
+		// three (or four) packages that all ship ONE path: chains of replaces in both directions, one
+		// origin with differing content, differing origins with identical content, one of them possibly a
+		// symlink — the territory of impl_refines_spec / owner_invariant_flags / recorded_file_truth
+		n = r.Range(3, 4)
+		g.names = []string{"a", "b", "c", "d"}[:n]
+		path := Pick(r, g.focus)
+		mode := Pick(r, []string{"fwd", "rev", "origin", "ident", "mixed"})
+		c.Kind = "chain-" + mode
+		for k := 0; k < n; k++ {
+			p := conflictPkg{Name: g.names[k], Version: Pick(r, conflictVersions), Origin: fmt.Sprintf("o%d", k+1)}
+			content := fmt.Sprintf("%d", k+1)
+			switch mode {
+			case "fwd": // every package replaces its predecessor: the last one wins
+				if k > 0 {
+					p.Replaces = []string{g.names[k-1]}
+					if r.Chance(15) {
+						p.Replaces = []string{g.names[k-1] + Pick(r, []string{"<", ">=", "="}) + Pick(r, conflictVersions)}
+					}
+				}
+			case "rev": // every package replaces its successor: the first one stays
+				if k+1 < n {
+					p.Replaces = []string{g.names[k+1]}
+				}
+			case "origin": // one origin (sometimes the empty one), differing content: the last one wins
+				p.Origin = "o1"
+				if r.Chance(6) {
+					p.Origin = ""
+				}
+			case "ident": // differing origins, identical content: the first one keeps it
+				content = "same"
+			default:
+				p.Origin = Pick(r, conflictOrigins)
+				p.Replaces = g.replaces(k, n)
+				content = Pick(r, conflictContents)
+			}
+			leaf := conflictFile{Path: path, Type: "file", Mode: Pick(r, conflictFileModes), Content: content}
+			if r.Chance(10) {
+				leaf = conflictFile{Path: path, Type: "symlink", Mode: 0o777, Link: Pick(r, []string{"g", "missing", "b"})}
+			}
+			if r.Chance(12) {
+				leaf.UID, leaf.GID = 100, 101
+			}
+			leaves := []conflictFile{leaf}
+			if r.Chance(40) {
+				other := Pick(r, conflictLeafDirs) + "/" + Pick(r, conflictLeafNames)
+				if other != path {
+					leaves = append(leaves, g.leaf(other, 5, 0))
+				}
+			}
+			sort.SliceStable(leaves, func(a, b int) bool { return leaves[a].Path < leaves[b].Path })
+			p.Files = g.withParents(leaves, 0)
+			c.Pkgs = append(c.Pkgs, p)
 		}
 	case kind < 60:
 		c.Kind = "mixed"
@@ -250,8 +307,21 @@ func (conflictSuite) Gen(r *Rng, i int, tier string) any {
 			first.Files = append(g.withParents([]conflictFile{g.dirEntry(dir)}, 0), first.Files...)
 		}
 		c.Pkgs = append(c.Pkgs, first)
+		unclean := r.Chance(30)
+		if unclean {
+			c.Kind = "alias-unclean"
+		}
 		for k := 1; k < n; k++ {
 			p := g.pkg(k, n, 5, 0, 0, 0)
+			if unclean {
+				// the same node under another spelling of its path (`usr/lib//x`): installedFiles is keyed by
+				// the raw header name
+				f := Pick(r, g.focus)
+				i := strings.LastIndex(f, "/")
+				p.Files = append(p.Files, g.withParents([]conflictFile{{Path: f[:i] + "/" + f[i:], Type: "file", Mode: 0o644, Content: Pick(r, conflictContents)}}, 0)...)
+				c.Pkgs = append(c.Pkgs, p)
+				continue
+			}
 			if r.Chance(75) {
 				var leaves []conflictFile
 				if r.Chance(50) {
@@ -422,6 +492,9 @@ func conflictTags(c conflictCase, backend string, o conflictObs) []string {
 		if s.link > 1 {
 			shape["overlap:link-link"] = true
 		}
+		if s.file+s.link > 2 {
+			shape["overlap:three+"] = true
+		}
 		if s.dir > 0 && (s.file > 0 || s.link > 0) {
 			shape["overlap:dir-nondir"] = true
 		}
@@ -433,6 +506,15 @@ func conflictTags(c conflictCase, backend string, o conflictObs) []string {
 		if p.Origin == "" {
 			tags = append(tags, "origin:empty")
 			break
+		}
+	}
+unclean:
+	for _, p := range c.Pkgs {
+		for _, f := range p.Files {
+			if strings.Contains(f.Path, "//") {
+				tags = append(tags, "name:unclean")
+				break unclean
+			}
 		}
 	}
 	for _, p := range c.Pkgs {
